@@ -614,7 +614,16 @@ def exact (ev : List Ev) : Bool :=
       | none => false
     | _ => true
 
-def ok (t : Trace) : Bool := neverEarly t.ev && exact t.ev
+/-- "failures other than a timeout are reported as themselves, as soon as they occur": an operation that returned
+    Err(Send) or Err(Receive) is over - its message does not enter a handler afterwards (a failure reported for work
+    that is then carried out is not the outcome of that operation) -/
+def failureIsFinal (ev : List Ev) : Bool :=
+  (List.range ev.length).all fun p =>
+    match ev[p]? with
+    | some (.ret oid .send _) | some (.ret oid .receive _) => !((ev.drop (p + 1)).any (isStart oid))
+    | _ => true
+
+def ok (t : Trace) : Bool := neverEarly t.ev && exact t.ev && failureIsFinal t.ev
 end C10
 
 /-! ### C11 — is_alive tells the truth (strong handles) -/
